@@ -27,6 +27,8 @@ pub enum Op {
 	Edit(u8, u8),
 	/// B = A.clone()
 	CloneAB,
+	/// slot.clone_from(&other slot)
+	CloneFrom(u8),
 }
 
 pub const N_EDITS: u8 = 5;
@@ -39,11 +41,13 @@ pub fn op_name(op: &Op) -> String {
 		Op::Freeze(s) => format!("{}.freeze()", slot(s)),
 		Op::Edit(s, k) => format!("{}.nodes_mut():{}", slot(s), ["no change", "rename first field", "add symbol", "fixed size + 1", "rename first named type"][*k as usize]),
 		Op::CloneAB => "b = a.clone()".into(),
+		Op::CloneFrom(0) => "a.clone_from(&b)".into(),
+		Op::CloneFrom(_) => "b.clone_from(&a)".into(),
 	}
 }
 
 pub fn all_ops() -> Vec<Op> {
-	let mut v = vec![Op::CloneAB];
+	let mut v = vec![Op::CloneAB, Op::CloneFrom(0), Op::CloneFrom(1)];
 	for s in 0..2u8 {
 		v.push(Op::Fp(s));
 		v.push(Op::Json(s));
@@ -62,6 +66,7 @@ pub fn op_to_json(op: &Op) -> serde_json::Value {
 		Op::Freeze(s) => json!(["freeze", s]),
 		Op::Edit(s, k) => json!(["edit", s, k]),
 		Op::CloneAB => json!(["clone"]),
+		Op::CloneFrom(s) => json!(["clone_from", s]),
 	}
 }
 
@@ -74,6 +79,7 @@ pub fn op_from_json(v: &serde_json::Value) -> Option<Op> {
 		"freeze" => Op::Freeze(n(1)?),
 		"edit" => Op::Edit(n(1)?, n(2)?),
 		"clone" => Op::CloneAB,
+		"clone_from" => Op::CloneFrom(n(1)?),
 		_ => return None,
 	})
 }
@@ -214,6 +220,14 @@ pub fn run_history(base: &Base, hist: &[Op], judge: Judge) -> (u64, Result<(), S
 				slots[1] = Some(Slot { sm: a.sm.clone(), original: a.original.clone() });
 				results.push("clone".into());
 			}
+			Op::CloneFrom(d) => {
+				let (l, r) = slots.split_at_mut(1);
+				let (dst, src) = if d == 0 { (&mut l[0], &r[0]) } else { (&mut r[0], &l[0]) };
+				let (Some(dst), Some(src)) = (dst.as_mut(), src.as_ref()) else { return (INVALID, Ok(()), false) };
+				dst.sm.clone_from(&src.sm);
+				dst.original = src.original.clone();
+				results.push("clone_from".into());
+			}
 			Op::Edit(s, k) => {
 				let Some(slot) = slots[s as usize].as_mut() else { return (INVALID, Ok(()), false) };
 				if !apply_edit(&mut slot.sm, k) {
@@ -250,15 +264,23 @@ pub fn run_history(base: &Base, hist: &[Op], judge: Judge) -> (u64, Result<(), S
 				};
 				let want_json = slot.original.clone().unwrap_or(fresh_json);
 				let sm = slot.sm;
+				let sm_nodes = sm.nodes().to_vec();
 				let got = guarded(|| sm.freeze().map(|f| (*f.rabin_fingerprint(), f.json().to_owned())).map_err(|e| e.to_string()));
 				match &got {
 					Out::Ok((fp, js)) => {
 						check(Judge::Fingerprint, *fp == want_fp, format!("freeze().rabin_fingerprint() = {fp:02x?}, but the current nodes have canonical form {text}, fingerprint {want_fp:02x?}"));
-						let same = match (vmodel::json::parse(js), vmodel::json::parse(&want_json)) {
-							(Ok(a), Ok(b)) => crate::sgen::json_same(&a, &b),
-							_ => false,
+						// never edited: the original document, key by key; otherwise: any document that
+						// denotes the current nodes (the property asks for no particular text)
+						let ok = if slot.original.is_some() {
+							match (vmodel::json::parse(js), vmodel::json::parse(&want_json)) {
+								(Ok(a), Ok(b)) => crate::sgen::json_same(&a, &b),
+								_ => false,
+							}
+						} else {
+							let current = ggen::from_crate(sm_nodes.as_slice()).map(|g| ggen::unfold(&g));
+							matches!((resolve_text(js, &ResolveCfg { allow_forward: false, allow_leading_dot: true }), current), (Ok(back), Some(cur)) if back == cur)
 						};
-						check(Judge::Json, same, format!("freeze().json() = {js}, expected {want_json} ({})", if slot.original.is_some() { "the original document: the object was never edited" } else { "what a fresh SchemaMut::from_nodes(current nodes) renders" }));
+						check(Judge::Json, ok, format!("freeze().json() = {js}, expected {} {want_json}", if slot.original.is_some() { "the original document (the object was never edited):" } else { "a document denoting the current nodes, such as what a fresh SchemaMut::from_nodes(current nodes) renders:" }));
 					}
 					other => {
 						check(Judge::Fingerprint, false, format!("freeze() = {other:?}"));
@@ -274,8 +296,8 @@ pub fn run_history(base: &Base, hist: &[Op], judge: Judge) -> (u64, Result<(), S
 
 fn interesting(hist: &[Op]) -> bool {
 	// observation or clone, then an edit, then an observation
-	let obs = |o: &Op| matches!(o, Op::Fp(_) | Op::Json(_) | Op::Freeze(_) | Op::CloneAB);
-	(0..hist.len()).any(|i| obs(&hist[i]) && (i + 1..hist.len()).any(|j| matches!(hist[j], Op::Edit(..)) && (j + 1..hist.len()).any(|k| obs(&hist[k]) && !matches!(hist[k], Op::CloneAB))))
+	let obs = |o: &Op| matches!(o, Op::Fp(_) | Op::Json(_) | Op::Freeze(_) | Op::CloneAB | Op::CloneFrom(_));
+	(0..hist.len()).any(|i| obs(&hist[i]) && (i + 1..hist.len()).any(|j| matches!(hist[j], Op::Edit(..)) && (j + 1..hist.len()).any(|k| obs(&hist[k]) && !matches!(hist[k], Op::CloneAB | Op::CloneFrom(_)))))
 }
 
 /// Explore all histories up to `depth` operations over every base.
